@@ -1,4 +1,5 @@
 import OmplModel.Model.Phs
+import OmplModel.Model.PhsGlue
 import OmplModel.Driver.Common
 /-! Line-protocol driver for the informed-sampling model (`phs [seed=…]`).  See harness/phs.cpp for the
 grammar; ops that only make sense on the real code (`probe`, `sprobe`, `surf`, `bulk`, `bulk3`, `keep`)
@@ -27,10 +28,13 @@ structure DSt where
   restore : Bool := false     -- fix 09980379c (F36) present in the tree under test
   degfix : Bool := false      -- fix 5852532a8 (F130) present in the tree under test
   ordQ : List (List Float × Unit) := []
+  cfsfix : Bool := false      -- repair of F450 present in the tree under test (no uninformed part when both indices coincide)
+  layout : Layout := ⟨false, 0, 0⟩   -- isCompound / informedIdx_ / uninformedIdx_ from the model's own `classify`
+  subKinds : List String := []        -- component kinds of a compound space, in order: "rv" | "so2" | "so3"
 
 def init (ts : List String) : Option DSt :=
   match ts with
-  | "phs" :: rest => some { restore := rest.contains "restore=1", degfix := rest.contains "degfix=1" }
+  | "phs" :: rest => some { restore := rest.contains "restore=1", degfix := rest.contains "degfix=1", cfsfix := rest.contains "cfsfix=1" }
   | _ => none
 
 def takeVec (ts : List String) (n : Nat) : Option (List Float × List String) :=
@@ -170,12 +174,30 @@ def rotInBounds (kind : String) (r : List Float) : Bool :=
     let nrm : Float := Float.sqrt (r.foldl (fun a q => a + q * q) (0.0 : Float))
     Float.abs (nrm - 1.0) < 1e-9
 
-def compInBounds (kind : String) (lo hi : Float) (st : List Float × List Float) : Bool :=
-  rvInBounds lo hi (st.1, ()) && rotInBounds kind st.2
+/-- `CompoundStateSpace::satisfiesBounds`: every component in its own subspace's bounds -/
+def compsInBounds (kinds : List String) (n : Nat) (lo hi : Float) : List String → List (List Float) → Bool
+  | [], [] => true
+  | k :: ks, c :: cs =>
+    (if k == "rv" then c.length == n && rvInBounds lo hi (c, ()) else rotInBounds (if k == "so2" then "se2" else "se3") c) &&
+      compsInBounds kinds n lo hi ks cs
+  | _, _ => false
+
+/-- reals per component of kind `k` -/
+def compDim (n : Nat) (k : String) : Nat := if k == "rv" then n else if k == "so2" then 1 else 4
+
+/-- the state the real call returns for the tested informed vector `x` and the uninformed draw `rot`: the model's own
+`createFullState` for the layout the model's own `classify` gave -/
+def fullOf (st : DSt) (x rot : List Float) : FullState Float :=
+  st.layout.createFullStateG st.cfsfix (.comp (st.subKinds.map (fun k => List.replicate (compDim st.n k) 0.0))) x rot
+
+def compInBounds (st : DSt) (s : List Float × List Float) : Bool :=
+  match fullOf st s.1 s.2 with
+  | .comp cs => compsInBounds st.subKinds st.n st.lo st.hi st.subKinds cs
+  | .flat v => rvInBounds st.lo st.hi (v, ())
 
 def supCompound (st : DSt) (s : Sampler Float) (op : String) (mc : Option Float) (c : Float) (vals : List Float) : DSt × String :=
   if st.skind != "direct" then (st, "bad-op") else
-  let rdim := if st.kind == "se2" then 1 else 4
+  let rdim := if st.layout.hasUninformedG st.cfsfix then compDim st.n (st.subKinds.getD st.layout.un "") else 0
   let s' := s.updateG st.restore c
   if s'.useBoundsBranch then ({ st with smp := some s' }, op ++ " bounds-branch")
   else if vals.length != s.numIters * (st.n + 3) + s.numIters * rdim then (st, "bad-op")
@@ -184,18 +206,65 @@ def supCompound (st : DSt) (s : Sampler Float) (op : String) (mc : Option Float)
     let rots := vals.drop (s.numIters * (st.n + 3))
     let tagged := assignRots s' rdim (drawsGoR st.n raw.length raw) rots
     let ds := tagged.map (·.1)
-    let inB := compInBounds st.kind st.lo st.hi
+    let inB := compInBounds st
     let cur : List Float × List Float := (st.cur, [])
     let r := match mc with
       | none => s.sample2G st.restore st.degfix inB true c ds cur
-      | some m => s.sample3G st.restore st.degfix inB true m c ds cur
+      | some m =>
+        -- heuristicSolnCost reads the informed substate of the state createFullState wrote (PHS branch: st = (tested vector, uninformed draw))
+        s.sample3GV (fun x => st.layout.informedSubstate (fullOf st x.1 x.2)) st.restore st.degfix inB true m c ds cur
     let o := r.2
     let used := match mc with
       | none => o.iters
       | some _ => ds.length - o.rest.length
-    let kept := ((tagged.take used).filter (·.2)).length
+    let kept := if rdim == 0 then 0 else ((tagged.take used).filter (·.2)).length
+    -- what the caller gets back: the created full state, in `copyToReals` order, and its informed part as
+    -- `getInformedSubstate` (hence `heuristicSolnCost`) reads it
+    let full := fullOf st o.st.1 o.st.2
     ({ st with smp := some r.1, cur := o.st.1 },
-      s!"{op} found={if o.found then 1 else 0} used={used} kept={kept} ~x={if o.found then vecBits (o.st.1 ++ o.st.2) else "-"} inb={if o.found then (if inB o.st then "1" else "0") else "-"}")
+      s!"{op} found={if o.found then 1 else 0} used={used} kept={kept} ~x={if o.found then vecBits full.flatten else "-"} inb={if o.found then (if inB o.st then "1" else "0") else "-"} ~xi={if o.found then vecBits (st.layout.informedSubstate full) else "-"}")
+
+def spTypeOf (s : String) : Option SpType :=
+  match s with
+  | "rv" => some .realVector | "unknown" => some .unknown | "se2" => some .se2 | "se3" => some .se3
+  | "dubins" => some .dubins | "rs" => some .reedsShepp | "other" => some .other | _ => none
+
+def subTypeOf (s : String) : Option SubType :=
+  match s with
+  | "rv" => some .rv | "so2" => some .so2 | "so3" => some .so3 | "other" => some .other | _ => none
+
+/-- the spaces of the sampler world: (space type, subspace kinds with their weights) -/
+def compoundKind (kind : String) : Option (SpType × List (String × Float)) :=
+  match kind with
+  | "se2" => some (.se2, [("rv", 1.0), ("so2", 0.5)])
+  | "dubins" => some (.dubins, [("rv", 1.0), ("so2", 0.5)])
+  | "rs" => some (.reedsShepp, [("rv", 1.0), ("so2", 0.5)])
+  | "se2x" => some (.se2, [("so2", 0.5), ("rv", 1.0)])      -- an SE(2)-typed compound with the subspaces the other way round
+  | "se3" => some (.se3, [("rv", 1.0), ("so3", 1.0)])
+  | "crv" => some (.unknown, [("rv", 1.0)])                  -- CompoundStateSpace with ONE real-vector subspace
+  | _ => none
+
+def subTypeOfKind (k : String) : SubType := if k == "rv" then .rv else if k == "so2" then .so2 else .so3
+
+/-- a compound space of the sampler world: the layout comes from the model's own `classify` (the space is only usable
+when the constructor would accept it); `CompoundStateSpace::getMeasure`: `m = 1; m *= weights_[i] * components_[i]->getMeasure()` -/
+def compoundSpace (st : DSt) (kind : String) (n : Nat) (lo hi : Float) : DSt × String :=
+  match compoundKind kind with
+  | none => (st, "bad-op")
+  | some (ty, subs) =>
+    match classify { compound := true, castOk := true, ty := ty, subs := subs.map (fun kw => subTypeOfKind kw.1) } with
+    | .error _ => (st, "bad-op")
+    | .ok L =>
+      let m := (List.range n).foldl (fun m _ => m * (hi - lo)) (1.0 : Float)
+      let pi : Float := Num.pi
+      let measOf := fun (k : String) => if k == "rv" then m else if k == "so2" then 2.0 * pi else pi * pi
+      let tot := subs.foldl (fun acc kw => acc * (kw.2 * measOf kw.1)) (1.0 : Float)
+      let kinds := subs.map (·.1)
+      let inf := measOf (kinds.getD L.inf "")
+      ({ st with kind := kind, n := n, lo := lo, hi := hi, infMeas := inf, totMeas := tot,
+                 unMeas := L.unMeasureG st.cfsfix (fun i => measOf (kinds.getD i "")), layout := L, subKinds := kinds,
+                 starts := [], goals := [], smp := none, skind := "", q := [] },
+        s!"space ok ~inf={floatBits inf} ~tot={floatBits tot}")
 
 def step (st : DSt) (ts : List String) : DSt × String :=
   match ts with
@@ -284,24 +353,27 @@ def step (st : DSt) (ts : List String) : DSt × String :=
     | some n, some lo, some hi =>
       let m := (List.range n).foldl (fun m _ => m * (hi - lo)) (1.0 : Float)
       ({ st with kind := "rv", n := n, lo := lo, hi := hi, infMeas := m, totMeas := m, unMeas := none,
+                 layout := ⟨false, 0, 0⟩, subKinds := [],
                  starts := [], goals := [], smp := none, skind := "", q := [] },
         s!"space ok ~inf={floatBits m} ~tot={floatBits m}")
     | _, _, _ => (st, "bad-op")
+  | ["space", "crv", n, lo, hi] =>
+    match parseNat? n, parseFloatBits? lo, parseFloatBits? hi with
+    | some n, some lo, some hi => compoundSpace st "crv" n lo hi
+    | _, _, _ => (st, "bad-op")
   | ["space", kind, lo, hi] =>
     match parseFloatBits? lo, parseFloatBits? hi with
-    | some lo, some hi =>
-      if kind == "se2" || kind == "se3" then
-        let n := if kind == "se2" then 2 else 3
-        let m := (List.range n).foldl (fun m _ => m * (hi - lo)) (1.0 : Float)
-        let pi : Float := Num.pi
-        let um : Float := if kind == "se2" then 2.0 * pi else pi * pi
-        -- CompoundStateSpace::getMeasure: m *= weights_[i] * components_[i]->getMeasure() (SE2 weights 1, 0.5; SE3 1, 1)
-        let tot := (1.0 * (1.0 * m)) * ((if kind == "se2" then 0.5 else 1.0) * um)
-        ({ st with kind := kind, n := n, lo := lo, hi := hi, infMeas := m, totMeas := tot, unMeas := some um,
-                   starts := [], goals := [], smp := none, skind := "", q := [] },
-          s!"space ok ~inf={floatBits m} ~tot={floatBits tot}")
-      else (st, "bad-op")
+    | some lo, some hi => compoundSpace st kind (if kind == "se3" then 3 else 2) lo hi
     | _, _ => (st, "bad-op")
+  | "ctor" :: obj :: ns :: gs :: ng :: cmp :: cast :: ty :: subs =>
+    match parseNat? obj, parseNat? ns, parseNat? gs, parseNat? ng, parseNat? cmp, parseNat? cast, spTypeOf ty, subs.mapM subTypeOf with
+    | some obj, some ns, some gs, some ng, some cmp, some cast, some ty, some subs =>
+      let i : CtorIn := { hasObjective := obj != 0, numStarts := ns, goalSampleable := gs != 0, numGoals := ng,
+                          space := { compound := cmp != 0, castOk := cast != 0, ty := ty, subs := subs } }
+      match ctorCheck i with
+      | .ok L => (st, s!"ctor ok compound={if L.compound then 1 else 0} inf={L.inf} un={L.un} hasun={if L.hasUninformedG st.cfsfix then 1 else 0}")
+      | .error e => (st, s!"ctor throw={e.code}")
+    | _, _, _, _, _, _, _, _ => (st, "bad-op")
   | "starts" :: k :: rest =>
     match parseNat? k with
     | some k =>
@@ -327,7 +399,7 @@ def step (st : DSt) (ts : List String) : DSt × String :=
       if st.kind == "" || st.starts.isEmpty || st.goals.isEmpty then (st, "bad-op") else
       let direct := skind == "direct" || skind == "ord-direct"
       if !(direct || skind == "rej" || skind == "ord-rej") then (st, "bad-op") else
-      let pairs := st.starts.flatMap (fun s => st.goals.map (fun g => (s, g)))
+      let pairs := phsPairs st.starts st.goals
       let phss := (pairs.zipIdx).map (fun (sg, i) => Phs.mk' i sg.1 sg.2 [])
       let smp : Sampler Float :=
         { phss := phss, summed := 0, numIters := ni, infMeasure := st.infMeas, unMeasure := st.unMeas,
@@ -401,7 +473,7 @@ def step (st : DSt) (ts : List String) : DSt × String :=
   | "sup" :: seed :: c :: rest =>
     match parseNat? seed, parseFloatBits? c, st.smp, rest.mapM parseFloatBits? with
     | some _, some c, some s, some vals =>
-      if st.kind == "se2" || st.kind == "se3" then supCompound st s "sup" none c vals else
+      if st.layout.compound then supCompound st s "sup" none c vals else
       if st.kind != "rv" || st.skind != "direct" then (st, "bad-op") else
       let s' := s.updateG st.restore c
       if s'.useBoundsBranch then ({ st with smp := some s' }, "sup bounds-branch")
@@ -411,12 +483,12 @@ def step (st : DSt) (ts : List String) : DSt × String :=
         let r := s.sample2G st.restore st.degfix (rvInBounds st.lo st.hi) true c ds (st.cur, ())
         let o := r.2
         ({ st with smp := some r.1, cur := o.st.1 },
-          s!"sup found={if o.found then 1 else 0} used={o.iters} kept=0 ~x={if o.found then vecBits o.st.1 else "-"} inb={if o.found then (if rvInBounds st.lo st.hi o.st then "1" else "0") else "-"}")
+          s!"sup found={if o.found then 1 else 0} used={o.iters} kept=0 ~x={if o.found then vecBits o.st.1 else "-"} inb={if o.found then (if rvInBounds st.lo st.hi o.st then "1" else "0") else "-"} ~xi={if o.found then vecBits o.st.1 else "-"}")
     | _, _, _, _ => (st, "bad-op")
   | "sup3" :: seed :: mc :: c :: rest =>
     match parseNat? seed, parseFloatBits? mc, parseFloatBits? c, st.smp, rest.mapM parseFloatBits? with
     | some _, some mc, some c, some s, some vals =>
-      if st.kind == "se2" || st.kind == "se3" then supCompound st s "sup3" (some mc) c vals else
+      if st.layout.compound then supCompound st s "sup3" (some mc) c vals else
       if st.kind != "rv" || st.skind != "direct" then (st, "bad-op") else
       let s' := s.updateG st.restore c
       if s'.useBoundsBranch then ({ st with smp := some s' }, "sup3 bounds-branch")
@@ -427,7 +499,7 @@ def step (st : DSt) (ts : List String) : DSt × String :=
         let o := r.2
         let used := ds.length - o.rest.length
         ({ st with smp := some r.1, cur := o.st.1 },
-          s!"sup3 found={if o.found then 1 else 0} used={used} kept=0 ~x={if o.found then vecBits o.st.1 else "-"} inb={if o.found then (if rvInBounds st.lo st.hi o.st then "1" else "0") else "-"}")
+          s!"sup3 found={if o.found then 1 else 0} used={used} kept=0 ~x={if o.found then vecBits o.st.1 else "-"} inb={if o.found then (if rvInBounds st.lo st.hi o.st then "1" else "0") else "-"} ~xi={if o.found then vecBits o.st.1 else "-"}")
     | _, _, _, _, _ => (st, "bad-op")
   | ["iss", c] =>
     if st.kind != "rv" then (st, "bad-op") else
